@@ -295,7 +295,34 @@ def c14(run):
         "reached only with the result of cose_encrypt0_decrypt known > 0 (R-OSC-SPLIT).")
 
 
+def c02(run):
+    from rules import r_range, r_shift, r_stream, r_parsegate, r_fixup
+    P = run.prog('rel')
+    r_range.run(run, P)
+    r_range.run_cbor(run, P)
+    r_shift.run(run, P, units=('oscore.c', 'oscore_cbor.c'))
+    r_stream.run_cap(run, P)
+    r_parsegate.run(run, P)
+    r_fixup.run_stale(run, P)
+    run.min_instances('R-RANGE', 12)
+    run.min_instances('R-STREAM-CAP', 4)
+    run.min_instances('R-PARSE-GATE', 15)
+    run.min_instances('R-FIXUP', 25)
+    run.assumptions = ASSUME_COMMON + [
+        "absence of every out-of-bounds / use-after-free / UB for all byte strings and histories, termination and 'still answers afterwards' are NOT decided",
+        "indices that are persistent reader state (hdr_ofs, http_ofs, data_ofs, partial_read) need a relational invariant and are declined (counted in stats)",
+        "the CBOR reader's own header reads (get_byte_inc without length test, up to 8 bytes) are not covered"]
+    return run.finish(
+        "Necessary conditions of memory safety on the receive surface, decided structurally: every index into a fixed-size array and every copy "
+        "size into a fixed-size destination that derives from received bytes is proven in range by interval analysis, using the decoder's own "
+        "option-length table (extracted from coap_pdu_parse_opt_base) as the bound; CBOR-declared sizes are compared with the remaining length; "
+        "shift counts from the wire are below the operand width (R-RANGE); peer-declared message/frame lengths are capped and over-long input "
+        "closes the session (R-STREAM-CAP); the protocol layer is only entered after successful parsing and every malformed-input condition "
+        "leads to rejection (R-PARSE-GATE); no pointer into a PDU buffer is used after a call that may reallocate it, library-wide (R-FIXUP).")
+
+
 PROPS = {
+    'C02': c02,
     'C14': c14,
     'C19': c19,
     'C20': c20,
